@@ -20,7 +20,7 @@ def _mods():
 
 
 def draw(rng, i=1):
-    c, kind = gens.cell(rng)
+    c, kind = gens.cell(rng, scaled=True)
     if i % 8 == 0:
         eps = [0.0] * 6
     elif i % 8 in (1, 5):
